@@ -22,15 +22,19 @@ def run(tier, seed):
               R.Ranges.set_value, R._shape, CE.format_output)
     ck.assume('source / destination shapes (1..4 x 1..4), operand shapes, element-pool offsets, operator and argument count are boolean selectors; every explored path runs the real code natively (numpy performs the broadcasting)',
               'lifting oracle = the same registered function called on the corresponding scalar elements (differential between the vectorised path and the scalar path, both real code)')
-    ck.out_of_scope('shapes larger than 4x4', 'functions other than the 10 lifted operators / functions and CONCATENATE', 'symbolic element values')
+    ck.out_of_scope('shapes larger than 4x4', 'functions other than the 10 lifted operators / functions, the 12 one-argument functions and CONCATENATE', 'symbolic element values')
     known = ck.check_known_witness('C05-vector-transposed', WITNESS)
     quick = tier == 'quick'
     src = open(os.path.join(ROOT, 'harness', 'c05_arrays.py')).read().replace('__KNOWN_TRANSPOSE__', 'True' if known else 'False')
     hs, batch = [], Batch()
     T = 170 if quick else 900
     try:
-        h = Harness(ck, 'c05_fit', src.replace('__OP__', '0')); hs.append(h)
-        batch.add(h, T, only=['fit_ok', 'many_args_ok'], bounds={
+        s0 = src.replace('__OP__', '0')
+        if quick:
+            s0 = s0.replace('pre: sel(k0, k1, k2, k3) < len(POOLV) and sel(f0, f1, f2, f3) < len(UNARY)', 'pre: sel(k0, k1, k2, k3) in (0, 4, 7, 10) and sel(f0, f1, f2, f3) < len(UNARY)')
+        h = Harness(ck, 'c05_fit', s0); hs.append(h)
+        batch.add(h, T, only=['fit_ok', 'many_args_ok', 'unary_ok'], bounds={
+            'unary_ok': '12 element-wise functions of one argument (IS... family, NOT, ABS, LEN, ISNUMBER over a double TRANSPOSE) on 8 shapes x %s element-pool offsets x 4 memory layouts (C order, Fortran order, transposed view, strided slice)' % ('4' if quick else '12'),
             'fit_ok': 'every source shape 1..4 x 1..4 into every destination 1..4 x 1..4, stored through Ranges.push (plain and Array values) and as a formula result of a Cell',
             'many_args_ok': 'CONCATENATE with 9..64 arguments (both sides of the 32-argument limit), two array arguments of 8 x 8 shape combinations at 4 positions'})
         for op in range(10):
